@@ -186,12 +186,20 @@ func (a xy) ref() (pt, bool) {
 	return p, refOnCurve(p)
 }
 
-// group-layer input contract (what the code itself produces): X ≤ 8, Y ≤ 8, Z ≤ 8 is the hard
-// limit of Mul/Sqr; outputs of Double/Add have X ≤ 6, Y ≤ 4, Z ≤ 2.
+// group-layer input contract = what the Go functions admit: every coordinate goes into Field.Mul / Field.Sqr
+// (magnitude ≤ 8) somewhere in Double / Add / AddXY / mul_lambda / SetXYZ / IsValid / ECmult, and nothing
+// narrower is required anywhere (the library's own outputs have X ≤ 6, Y ≤ 4, Z ≤ 2 — a subset).
 func (a xyz) inContract() bool {
-	return magAtMost(a.x, 6) && magAtMost(a.y, 4) && magAtMost(a.z, 2)
+	return magAtMost(a.x, 8) && magAtMost(a.y, 8) && magAtMost(a.z, 8)
 }
-func (a xy) inContract() bool { return magAtMost(a.x, 2) && magAtMost(a.y, 2) }
+func (a xy) inContract() bool { return magAtMost(a.x, 8) && magAtMost(a.y, 8) }
+
+// XYZ.Neg / XY.Neg only copy X (and Z) and Normalize Y before Negate(1): Y is admitted up to Normalize's own
+// contract (magnitude ≤ 32); X and Z ≤ 8 so that the result can be handed on (and observed through SetXYZ).
+func (a xyz) inNegContract() bool {
+	return magAtMost(a.x, 8) && magAtMost(a.y, 32) && magAtMost(a.z, 8)
+}
+func (a xy) inNegContract() bool { return magAtMost(a.x, 8) && magAtMost(a.y, 32) }
 
 func parseInt(s string) (*big.Int, bool) {
 	v, ok := new(big.Int).SetString(s, 16)
@@ -252,6 +260,11 @@ func checkPoint(op string, res xyz, want pt, c *caseRec) bool {
 	got, on := res.ref()
 	if !on || !got.eq(want) {
 		propFail("group-value:"+op, fmt.Sprintf("%s: result is %s, group law gives %s", c.Line, got, want), c)
+		return false
+	}
+	// the result must itself be an admissible operand (every coordinate within what Mul/Sqr accept)
+	if !res.inContract() {
+		propFail("group-magnitude:"+op, fmt.Sprintf("%s: result limbs %s exceed magnitude 8 (cannot be fed to the next group operation)", c.Line, res), c)
 		return false
 	}
 	// observable: XY.SetXYZ + GetPublicKey of the real code
@@ -653,7 +666,10 @@ func runCase(line, origin string) {
 				propFail("group-alias:dbl", line+": r.Double(r) differs from a.Double(&r)", c)
 			}
 		}
-		if ap, on := a.ref(); on && a.inContract() {
+		if ap, on := a.ref(); on && (a.inContract() || (op == "negj" && a.inNegContract())) {
+			if op == "negj" {
+				r.Hit(fmt.Sprintf("negj/ymag=%d", a.y.mag()))
+			}
 			prop = func() bool {
 				switch op {
 				case "dbl":
@@ -663,6 +679,50 @@ func runCase(line, origin string) {
 				default:
 					return checkPoint(op, res, refMul(refLambda, ap), c)
 				}
+			}
+		}
+	case "negxy": // XY.Neg (affine twin of XYZ.Neg; ECmult applies it to pre_g / pre_g_128 entries)
+		a, ok := parseXY(t[1:])
+		if !ok {
+			bad()
+		}
+		ga := a.goXY()
+		var out secp.XY
+		pan = guard(func() { ga.Neg(&out) })
+		res := xyOf(&out)
+		impl = res.String()
+		g2 := a.goXY()
+		guard(func() { g2.Neg(&g2) })
+		if r2 := xyOf(&g2); r2 != res {
+			propFail("group-alias:negxy", line+": a.Neg(&a) differs from a.Neg(&r)", c)
+		}
+		if ap, on := a.ref(); on && a.inNegContract() {
+			r.Hit(fmt.Sprintf("negxy/ymag=%d", a.y.mag()))
+			prop = func() bool {
+				want := refNeg(ap)
+				if res.inf != want.inf {
+					propFail("group-infinity:negxy", fmt.Sprintf("%s: Infinity=%v, group law gives %s", line, res.inf, want), c)
+					return false
+				}
+				if res.inf {
+					return true
+				}
+				got, on := res.ref()
+				if !on || !got.eq(want) || !res.inContract() {
+					propFail("group-value:negxy", fmt.Sprintf("%s: result is %s (limbs %s), group law gives %s", line, got, res, want), c)
+					return false
+				}
+				k2 := res.goXY()
+				var out65 [65]byte
+				if pan := guard(func() { k2.GetPublicKey(out65[:]) }); pan != "" {
+					propFail("group-observe-panic:negxy", fmt.Sprintf("%s: GetPublicKey panics: %s", line, pan), c)
+					return false
+				}
+				if hex.EncodeToString(out65[1:33]) != hex.EncodeToString(b32(want.x)) || hex.EncodeToString(out65[33:]) != hex.EncodeToString(b32(want.y)) {
+					propFail("group-observe:negxy", fmt.Sprintf("%s: GetPublicKey gives %x, group law gives %s", line, out65[1:], want), c)
+					return false
+				}
+				return true
 			}
 		}
 	case "add3":
@@ -1130,7 +1190,7 @@ func sameReply(op, impl, model string) bool {
 	case "dbl", "add3", "addxy", "negj", "mullam", "ecmult", "ecmultgen":
 		a, b := strings.Fields(impl), strings.Fields(model)
 		return len(a) == 4 && len(b) == 4 && a[3] == "1" && b[3] == "1"
-	case "setxyz":
+	case "setxyz", "negxy":
 		a, b := strings.Fields(impl), strings.Fields(model)
 		return len(a) == 3 && len(b) == 3 && a[2] == "1" && b[2] == "1"
 	}
@@ -1237,6 +1297,6 @@ func main() {
 		"the 10x26 field (field_10x26.go, 32-bit platforms) is not compiled here and is out of scope",
 		"Go's math/bits.Mul64/Add64 and uint64 wrap-around are rendered by the translator as the Nat expressions listed in go/cmd/gen_c08/xlate.go",
 	}
-	r.Finish("every case is one oracle request line: field ops on (a) named edge limb vectors 0,1,p-1,p,p+1,2p-1,2p,2^256-1, all-ones and per-magnitude maxima, (b) per-limb edge/random mixes within magnitude m (1..32), (c) raw 64-bit limbs (translator validation beyond the contract), (d) chains of add/negate/mul_int/normalize/mul/sqr fed with their own outputs up to the magnitude limits; group ops on curve points with random Z and denormalised limbs in the relations inf+inf, inf+P, P+inf, P+P, P+(-P), P+Q; scalars 0,1,n-1,n,n+1,2^128 boundaries, lambda-split rounding edges, runs of ones, 2^256-1, random; every entry of pre_g/pre_g_128/prec/fin; (e) directed (directed.go): operands found at run time by a search with the real Field code for which a raw Mul/Sqr output that the group code compares or takes the parity of is NOT canonical (top limb ≥ 2^48) — u1/u2/s1/s2 of XYZ.Add and XYZ.AddXY in the relations P+P and P+(-P) (also through ECmult 1·A+k·G and BaseMultiplyAdd(k·G,k)), the Sqrt output of XY.SetXO and its callers/twin DecompressPoint, ParsePubkey(02/03), ParseXOnlyPubkey — plus fixed witnesses of each; histogram kinds `addxy:dbl-noncanon-s2`, `setxo:noncanon-sqrt`, … count them. distinct = distinct request lines; a case counts as non-trivial when it reaches the real code",
+	r.Finish("every case is one oracle request line: field ops on (a) named edge limb vectors 0,1,p-1,p,p+1,2p-1,2p,2^256-1, all-ones and per-magnitude maxima, (b) per-limb edge/random mixes within magnitude m (1..32), (c) raw 64-bit limbs (translator validation beyond the contract), (d) chains of add/negate/mul_int/normalize/mul/sqr fed with their own outputs up to the magnitude limits; group ops on curve points with random Z and denormalised limbs in the relations inf+inf, inf+P, P+inf, P+P, P+(-P), P+Q; scalars 0,1,n-1,n,n+1,2^128 boundaries, lambda-split rounding edges, runs of ones, 2^256-1, random; every entry of pre_g/pre_g_128/prec/fin; (e) group operands over the FULL magnitude contract of the Go functions (wide.go): coordinates standing for value + k·p with k up to what the magnitude admits (X,Y,Z ≤ 8 = what Mul/Sqr accept; Y of XYZ.Neg/XY.Neg up to 32 = Normalize's contract), the excess spread evenly (k·p_i per limb) or unevenly (each limb anywhere in the interval that keeps all five within the bound), every magnitude 1..8 once per operation with the largest k, through negj/negxy/dbl/add3/addxy/mullam/setxyz/isvalid and ecmult with scalars small, 2^k−1, 2^k+2^j−1, small·λ, n−small, edges, random (histogram `ecmult/wide:digit-1-selects-pre_a_1[0]` counts the runs whose λ-split wNAF negates the caller's own un-normalised operand); (f) directed (directed.go): operands found at run time by a search with the real Field code for which a raw Mul/Sqr output that the group code compares or takes the parity of is NOT canonical (top limb ≥ 2^48) — u1/u2/s1/s2 of XYZ.Add and XYZ.AddXY in the relations P+P and P+(-P) (also through ECmult 1·A+k·G and BaseMultiplyAdd(k·G,k)), the Sqrt output of XY.SetXO and its callers/twin DecompressPoint, ParsePubkey(02/03), ParseXOnlyPubkey — plus fixed witnesses of each; histogram kinds `addxy:dbl-noncanon-s2`, `setxo:noncanon-sqrt`, … count them. distinct = distinct request lines; a case counts as non-trivial when it reaches the real code",
 		"translator validation: generated Lean defs vs the Go functions limb-for-limb on every field case; property: value/magnitude/observable (Normalize+GetB32) of the real code's result against math/big mod p, group results against an independent affine group law, table entries against recomputed multiples of G; hand group model vs Go limb-for-limb on finite results")
 }
